@@ -189,6 +189,11 @@ func c12Rt(r *rng, id string) {
 		case "pp":
 			// a full join over an in-memory duplex stream: both directions of push/pull
 			snd.del.state = payload
+			if r.chance(1, 40) {
+				// a large application state: anything up to the documented 20 MiB cap must go through
+				snd.del.state = r.bytes([]int{1<<20 - 1, 1 << 20, 1<<20 + 1, 3 << 20}[r.intn(4)])
+				payload = snd.del.state
+			}
 			rcv.del.state = r.bytes(1 + r.intn(40))
 			snd.del.meta = []byte("meta-S")
 			a, b := net.Pipe()
